@@ -103,7 +103,7 @@ func (db *Database) SearchWithPipelineOptions(query string, options SearchOption
 
 // sortAndLimitResults sorts results by score and applies limit
 func (db *Database) sortAndLimitResults(results []SearchResult, limit int) []SearchResult {
-	sort.Slice(results, func(i, j int) bool {
+	sort.SliceStable(results, func(i, j int) bool {
 		return results[i].Score > results[j].Score
 	})
 
@@ -603,7 +603,7 @@ func (db *Database) combineAndDeduplicateResults(exactResults, fuzzyResults []Se
 	}
 
 	// Sort by score
-	sort.Slice(combined, func(i, j int) bool {
+	sort.SliceStable(combined, func(i, j int) bool {
 		return combined[i].Score > combined[j].Score
 	})
 
@@ -763,7 +763,7 @@ func (db *Database) SearchWithNLP(query string, options SearchOptions) []SearchR
 	}
 
 	// Re-sort by updated scores
-	sort.Slice(results, func(i, j int) bool {
+	sort.SliceStable(results, func(i, j int) bool {
 		return results[i].Score > results[j].Score
 	})
 
